@@ -11,6 +11,9 @@
 (*   mov oA, rB  (send rB on output A)     mov rA, i0  (receive)           *)
 (*   j L   jz rA, L          (t = index of the line that carries label L)  *)
 (*   nop     twice           (a macro of zero parameters: inc r1 ; inc r1)  *)
+(*   ldk rA, rB, k           two source lines: mov rB, rom:d<k> (the ROM    *)
+(*                            address of data word k) ; mov rA, rom:[rB]    *)
+(*                            (the ROM word at that address)                *)
 (* and an entry directive naming the label of line `entry`, written before *)
 (* line epos (before or after that line's own label).                      *)
 (* Every label operand denotes the line that follows the label; execution  *)
@@ -18,6 +21,10 @@
 (* source form states; a literal loads the value it denotes; registers     *)
 (* wrap around at the register size.  The section's iomode (sync) prevails *)
 (* over the machine-wide default gio written in the bmdef line.            *)
+(* Every processor has a ROM data section of NData one-byte words          *)
+(* d0, d1, ... (values `data`, written in hexadecimal); it is placed in    *)
+(* the ROM right after the processor's code, so the address of d<k> is the  *)
+(* number of instructions of the section (after macro expansion) plus k.   *)
 (*                                                                         *)
 (* Wiring (ioatt): processor 0 reads the external input on i0.  With one   *)
 (* processor its outputs o0..o(NOut-1) are the external outputs.  With two, *)
@@ -41,7 +48,7 @@
 (***************************************************************************)
 EXTENDS Integers, Sequences, FiniteSets, TLC
 
-CONSTANTS RSize, Len0, Budget, NOut, NCP, EntryAnywhere, DirectiveAnywhere, MacroHeavy
+CONSTANTS RSize, Len0, Budget, NOut, NCP, NData, EntryAnywhere, DirectiveAnywhere, MacroHeavy
 
 ASSUME NCP \in {1, 2} /\ (NCP = 2 => NOut = 2)
 
@@ -53,9 +60,9 @@ CPs == 0 .. NCP - 1
 Lits == {0, 1, 2, 5, Mod - 1, Mod \div 2 + 3, Mod \div 64 + 1, Mod \div 8 + Mod \div 16 + 1}
 Notations == {"dec", "0x", "0b", "0d", "0u"}
 
-VARIABLES phase, progs, entry, epos, lbd, gio, attfirst, ref, asc, steps, lastio
-vars == <<phase, progs, entry, epos, lbd, gio, attfirst, ref, asc, steps, lastio>>
-shape == <<entry, epos, lbd, gio, attfirst>>
+VARIABLES phase, progs, entry, epos, lbd, gio, attfirst, data, ref, asc, steps, lastio
+vars == <<phase, progs, entry, epos, lbd, gio, attfirst, data, ref, asc, steps, lastio>>
+shape == <<entry, epos, lbd, gio, attfirst, data>>
 
 L(op, a, b, t, nt) == [op |-> op, a |-> a, b |-> b, t |-> t, nt |-> nt]
 
@@ -70,6 +77,8 @@ Plain ==
 Jumps == {L("j", 0, 0, t, "") : t \in 0 .. Len0 - 1} \cup {L("jz", a, 0, t, "") : a \in Regs, t \in 0 .. Len0 - 1}
 Sends == {L("send", o, b, 0, "") : o \in 0 .. NOut - 1, b \in Regs}
 Recvs == {L("recv", a, 0, 0, "") : a \in Regs}
+DataLines == {L("ldk", a, b, k, "") : a \in Regs, b \in Regs, k \in 0 .. NData - 1}
+DataVals == {0, 1, 5, 33, 128, 255} \cap (0 .. Mod - 1)
 
 M0 == [pc |-> 0, regs |-> [r \in Regs |-> 0], nin |-> 0]
 I0 == [cps |-> [c \in CPs |-> M0], outs |-> <<>>]
@@ -81,6 +90,7 @@ Init ==
   /\ lbd \in (IF DirectiveAnywhere THEN BOOLEAN ELSE {FALSE})         \* the label of line epos is written BEFORE the directive
   /\ gio \in {"none", "sync", "async"}                                \* machine-wide default iomode in the bmdef line
   /\ attfirst \in BOOLEAN                                             \* which end of an ioatt pair is written first
+  /\ data \in [0 .. NData - 1 -> DataVals]                            \* the ROM data words of every processor
   /\ ref = I0 /\ asc = I0 /\ steps = 0 /\ lastio = -10
 
 Cur == progs[Len(progs)]
@@ -94,6 +104,7 @@ BuildMacro == Add(L("twice", 0, 0, 0, ""), FALSE)
 BuildJump == \E l \in Jumps : Add(l, FALSE)
 BuildSend == \E l \in Sends : Add(l, TRUE)
 BuildRecv == \E l \in Recvs : Add(l, TRUE)
+BuildData == \E l \in DataLines : Add(l, FALSE)
 
 \* the last line is an unconditional jump: a program never runs off its end
 Close ==
@@ -123,6 +134,10 @@ Line(c, m) == progs[c + 1][m.pc + 1]
 IsLinkSend(c, l) == NCP = 2 /\ c = 0 /\ l.op = "send" /\ l.a = 1
 IsLinkRecv(c, l) == NCP = 2 /\ c = 1 /\ l.op = "recv"
 ExtPort(c, o) == IF NCP = 1 THEN o ELSE IF c = 0 THEN 0 ELSE 1 + o
+\* ROM words taken by the code of processor c: a macro call and an ldk are two instructions
+RECURSIVE Words(_, _)
+Words(p, i) == IF i > Len(p) THEN 0 ELSE (IF p[i].op \in {"twice", "ldk"} THEN 2 ELSE 1) + Words(p, i + 1)
+DataAddr(c, k) == (Words(progs[c + 1], 1) + k) % Mod
 
 \* one line executed by processor state m; inval is the value a receive obtains
 Step(c, m, inval) ==
@@ -136,6 +151,7 @@ Step(c, m, inval) ==
                   [] l.op \in {"rset", "movri"} -> [regs EXCEPT ![l.a] = l.b]
                   [] l.op = "twice" -> [regs EXCEPT ![1] = (@ + 2) % Mod]
                   [] l.op = "recv" -> [regs EXCEPT ![l.a] = inval]
+                  [] l.op = "ldk" -> [[regs EXCEPT ![l.b] = DataAddr(c, l.t)] EXCEPT ![l.a] = data[l.t]]
                   [] OTHER -> regs,
        nin  |-> IF l.op = "recv" /\ ~IsLinkRecv(c, l) THEN m.nin + 1 ELSE m.nin,
        pc   |-> CASE l.op = "j" -> l.t
@@ -170,7 +186,7 @@ Next == \E w \in 1 .. 8 :
                 ELSE IF w = 4 THEN BuildJump
                 ELSE IF w <= 6 THEN (IF IoOK THEN BuildSend ELSE BuildPlain)
                 ELSE IF w = 7 THEN (IF IoOK THEN BuildRecv ELSE BuildJump)
-                ELSE BuildPlain)
+                ELSE (IF NData > 0 THEN BuildData ELSE BuildPlain))
           ELSE (w = 1 /\ (Close \/ NextCP \/ Start \/ Exec))
 Spec == Init /\ [][Next]_vars
 
